@@ -33,6 +33,13 @@ def body(uid):
     GATES[uid].wait(60)
 
 
+def body_ct(uid):
+    """a low-level thread that asks `threading` who it is (as logging does for every record):
+    threading then keeps a _DummyThread entry for it, also after the thread has ended"""
+    threading.current_thread()
+    body(uid)
+
+
 def gone(ident):
     for _ in range(2000):
         if ident not in sys._current_frames():
@@ -51,6 +58,8 @@ def do(action):
             t = threading.Thread(target=body, args=(uid,), name=name)
             t.daemon = True
             t.start()
+        elif api == "_thread_ct":
+            _thread.start_new_thread(body_ct, (uid,))
         else:
             _thread.start_new_thread(body, (uid,))
         STARTED[uid].wait(60)
